@@ -1,5 +1,6 @@
 import OmplModel.Proofs.Rng
 import OmplModel.Proofs.RngOracle
+import OmplModel.Proofs.RngSphere
 /-!
 C20 — a fixed seed reproduces single-threaded planning bit for bit.
 
@@ -163,6 +164,38 @@ theorem reseed_without_reset_returns_stale (r : Rng) (s : UInt64) (h : r.savedAv
   · intro hs
     have := hs.2.2.1
     simp [setLocalSeedNoReset, Rng.create, h] at this
+
+/-! ## the sphere-based routines, and copies -/
+
+/-- `reseed_fresh` for *all* routines of `RNG`, the boost-based ones included (`uniformNormalVector`, `uniformInBall`,
+and with them the draw part of `uniformProlateHyperspheroid[Surface]`): after `setLocalSeed s` every operation
+sequence prints what a fresh `RNG(s)` prints.  In this boost the spherical distributions keep no state of their own;
+what the theorem needs from the code is that they draw from the object's own `generator_`. -/
+theorem reseed_fresh_all (r : Rng) (h : List OpX) (s : UInt64) (ops : List OpX) :
+    (r.runX (h ++ [OpX.base (Op.setLocalSeed s)] ++ ops)).drop (h.length + 1) = (Rng.create s).runX ops := by
+  rw [List.append_assoc, runX_append, List.drop_append, runX_length]
+  have e1 : h.length + 1 - h.length = 1 := by omega
+  have e2 : List.drop (h.length + 1) (r.runX h) = [] := by
+    apply List.drop_eq_nil_of_le; rw [runX_length]; omega
+  rw [e1, e2]
+  simp only [List.singleton_append, Rng.runX, List.drop_succ_cons, List.drop_zero, List.nil_append, Rng.stepX,
+    Rng.step]
+  exact runX_sim (setLocalSeed_sim_create _ s) ops
+
+/-- As coded (finding F200): `RNG` is copyable, and the copy shares the original's `SphericalData`, which is bound to
+the *original's* `generator_`.  So for a copy `k` of object `o`, whatever is done to `k` — in particular
+`k.setLocalSeed(s)` for any `s` — has no influence on what `k.uniformNormalVector()` returns, and the call leaves `k`'s
+own generator where it was: the "reseed reproduces the stream" clause fails for the sphere-based routines of a copy. -/
+theorem copy_sphere_ignores_own_seed (rngs : Array Rng) (k o dim : Nat) (hko : k ≠ o) (r' : Rng) :
+    (sphereAt (rngs.setIfInBounds k r') o dim).1 = (sphereAt rngs o dim).1 ∧
+      (sphereAt rngs o dim).2[k]? = rngs[k]? :=
+  ⟨sphereAt_ignores_other rngs k o dim hko r', sphereAt_leaves_other rngs k o dim hko⟩
+
+/-- … whereas for an object that is not a copy the routine is `uniformNormalVector` on its own generator. -/
+theorem sphere_of_original_uses_own_generator (rngs : Array Rng) (o dim : Nat) (h : o < rngs.size) :
+    sphereAt rngs o dim =
+      ((rngs[o].uniformNormalVector dim).1, rngs.setIfInBounds o (rngs[o].uniformNormalVector dim).2) :=
+  sphereAt_self rngs o dim h
 
 /-! ## planners as oracle machines -/
 
